@@ -25,6 +25,11 @@ structure FReg where
 inductive FOp where
   /-- `FBig::from_parts(s, e)`: `Repr::new`, precision = `max(digits(s), 1)` -/
   | fromParts (s e : Int)
+  /-- `FBig::<R, 2>::try_from(f32 / f64)` (float/src/convert.rs `impl_from_float_for_fbig!`; finite input decoded to
+      `(man, exp)`): representation `Repr::new(man, exp)`, precision `man.unsigned_abs().bit_len()` — the digit count of
+      the mantissa in the program's base (bits for `B = 2`); **0 = unlimited for ±0.0**.  Infinite inputs give the
+      `INFINITY` constants (not registers of a history: `FFin`), NaN is an error. -/
+  | fromFloat (man e : Int)
   /-- `Context::new(p).convert_int(n)` -/
   | convertInt (n : Int) (p : Nat)
   /-- `with_precision(p)` (`repr_round`; by reference `repr_round_ref` is the same function) -/
@@ -41,7 +46,7 @@ inductive FOp where
 /-- the precision an instruction runs at is limited (`≥ 1`; unlimited precision is not part of the comparison's
     precision shortcut at all) -/
 def FOp.Ok : FOp → Prop
-  | .fromParts _ _ | .neg _ | .clone _ => True
+  | .fromParts _ _ | .fromFloat _ _ | .neg _ | .clone _ => True
   | .convertInt _ p | .withPrecision _ p | .add _ _ p | .sub _ _ p | .mul _ _ p | .sqr _ p | .cubic _ p
   | .div _ _ p | .inv _ p | .sqrt _ p | .opMul _ _ p | .powi _ _ p | .powiNeg _ _ p => 1 ≤ p
 
@@ -61,6 +66,7 @@ def ofExc (p : Nat) : Except FPanic (Rounded Float.FRepr) → Option FReg
 
 def fstep (k : FCfg) (env : List FReg) : FOp → Option FReg
   | .fromParts s e => some ⟨Float.FRepr.new k.B s e, max (digitsI k.B s) 1⟩
+  | .fromFloat man e => some ⟨Float.FRepr.new k.B man e, digitsI k.B man⟩
   | .convertInt n p => some ⟨(reprRound k.B k.m k.c p (Float.FRepr.new k.B n 0)).1, p⟩
   | .withPrecision i p => (env[i]?).map fun a => ⟨(reprRound k.B k.m k.c p a.r).1, p⟩
   | .neg i => (env[i]?).map fun a => ⟨a.r.neg, a.p⟩
